@@ -14,3 +14,4 @@ import BevySyncModel.Props.C08
 import BevySyncModel.Props.C09
 import BevySyncModel.Props.C10
 import BevySyncModel.Props.C06
+import BevySyncModel.Props.C03
